@@ -123,17 +123,18 @@ func RunLive(o LiveOpts, al *Alarms) (*Net, LiveResult, error) {
 		}
 		time.Sleep(10 * time.Millisecond)
 	}
+	// a consensus routine that ended while the cluster was still running
+	for _, n := range net.Nodes {
+		select {
+		case <-n.CS.VerifDone():
+			res.Dead = append(res.Dead, fmt.Sprintf("node %d", n.Idx))
+		default:
+		}
+	}
 	for _, sw := range sws {
 		sw.Stop()
 	}
 	for _, n := range net.Nodes {
-		select {
-		case <-n.CS.VerifDone():
-			if !res.Reached {
-				// the loop also ends on Stop; only a loop that ended while the cluster was running is reported
-			}
-		default:
-		}
 		net.observe(n)
 		for h := uint64(1); h <= n.BO.Height(); h++ {
 			if c := n.BO.LoadBlockCommit(h); c != nil {
